@@ -51,7 +51,7 @@ var errTimedOut error = timedOutErr{}
 // ErrEIO is the persistent non-EOF error used by loss kind "err".
 func ErrEIO() error { return errEIO }
 
-var escRe = regexp.MustCompile("\x1b\\[[0-9;?]*[A-Za-z]|\x1b\\][^\x07]*\x07|\x1b\\([A-Za-z0-9]|\x1b[=>A-Z]")
+var escRe = regexp.MustCompile("\x1b\\[[0-9;?]*[A-Za-z]|\x1b\\][^\x07]*\x07|\x1b\\([A-Za-z0-9]|\x1b[=>A-Z78]")
 
 // Seg describes how the outbound stream is cut into reads.
 type Seg struct {
